@@ -1,6 +1,8 @@
 (* Proofs about Ledger/Conc.v: invariants of EVERY schedule (induction over the list of scheduled writers; no bound on the
-   number of writers or steps). *)
-From Coq Require Import List ZArith String Bool Arith Lia Sorted Permutation.
+   number of writers or steps).  Method: for each table a small inductive relation lists the ways one store call can change it
+   (fresh row with id = nextval, neutral rewrite, publication under the unique-index check, removal, commit, ...); the
+   table's invariant is preserved along the relation; every [step] is shown to be in the relation. *)
+From Coq Require Import List ZArith String Bool Arith Lia Sorted.
 From LV Require Import Ledger.Conc.
 Import ListNotations.
 Open Scope Z_scope.
@@ -15,28 +17,17 @@ Ltac brk := repeat match goal with
   | |- context [match ?x with _ => _ end] => destruct x eqn:?
   end.
 
-(* ---------------------------------------------------------------- ids: a table with a sequence *)
-Section Evo.
+(* ---------------------------------------------------------------- lists *)
+Section Ids.
   Context {A : Type} (idf : A -> Z).
-  (* how a table and its sequence evolve: fresh row with id = nextval, id-preserving rewrite, removal *)
-  Inductive evo : list A -> Z -> list A -> Z -> Prop :=
-  | evo_refl l n : evo l n l n
-  | evo_app l n row : idf row = n -> evo l n (l ++ [row]) (n + 1)
-  | evo_map l n f : (forall x, idf (f x) = idf x) -> evo l n (map f l) n
-  | evo_filter l n p : evo l n (filter p l) n
-  | evo_trans l1 n1 l2 n2 l3 n3 : evo l1 n1 l2 n2 -> evo l2 n2 l3 n3 -> evo l1 n1 l3 n3.
-
-  Definition ids_ok (l : list A) (n : Z) : Prop := NoDup (map idf l) /\ Forall (fun x => idf x < n) l.
-
-  Lemma nodup_snoc {B} (l : list B) x : NoDup l -> ~ In x l -> NoDup (l ++ [x]).
+  Lemma nodup_map_inj l x y : NoDup (map idf l) -> In x l -> In y l -> idf x = idf y -> x = y.
   Proof.
-    induction l as [|y r IH]; simpl; intros Hn Hx.
-    - constructor; [intros []|constructor].
-    - inversion Hn; subst. constructor.
-      + rewrite in_app_iff. simpl. intros [H|[H|[]]]; auto.
-      + apply IH; auto.
+    induction l as [|z r IH]; simpl; intros Hn Hx Hy E; [destruct Hx|].
+    destruct Hx as [Hx|Hx], Hy as [Hy|Hy]; subst; auto; inversion Hn; subst.
+    - exfalso. apply H1. rewrite E. apply in_map; auto.
+    - exfalso. apply H1. rewrite <- E. apply in_map; auto.
+    - apply IH; auto.
   Qed.
-
   Lemma nodup_map_filter (p : A -> bool) l : NoDup (map idf l) -> NoDup (map idf (filter p l)).
   Proof.
     induction l as [|y r IH]; simpl; intros Hn; auto.
@@ -45,184 +36,546 @@ Section Evo.
     apply filter_In in Hin. apply in_map_iff. exists z. tauto.
   Qed.
 
-  Lemma evo_mono l n l' n' : evo l n l' n' -> n <= n'.
-  Proof. induction 1; lia. Qed.
+End Ids.
 
-  Lemma evo_ids_ok l n l' n' : evo l n l' n' -> ids_ok l n -> ids_ok l' n'.
+Section Lists.
+  Context {A B : Type}.
+
+  Lemma nodup_app_intro (a b : list B) : NoDup a -> NoDup b -> (forall x, In x a -> ~ In x b) -> NoDup (a ++ b).
   Proof.
-    induction 1 as [l n|l n row Hr|l n f Hf|l n p|l1 n1 l2 n2 l3 n3 _ IH1 _ IH2]; intros [Hn Hf'].
-    - split; auto.
-    - split.
-      + rewrite map_app. simpl. apply nodup_snoc; auto. intros Hin. apply in_map_iff in Hin. destruct Hin as [z [Hz Hin]].
-        rewrite Forall_forall in Hf'. specialize (Hf' z Hin). lia.
-      + apply Forall_app. split.
-        * eapply Forall_impl; [|exact Hf']. simpl. intros; lia.
-        * constructor; [lia|constructor].
-    - split.
-      + rewrite map_map. erewrite map_ext; [exact Hn|]. intros; apply Hf.
-      + apply Forall_forall. intros x Hx. apply in_map_iff in Hx. destruct Hx as [z [Hz Hin]]. subst. rewrite Hf.
-        rewrite Forall_forall in Hf'. auto.
-    - split.
-      + apply nodup_map_filter; auto.
-      + apply Forall_forall. intros x Hx. apply filter_In in Hx. rewrite Forall_forall in Hf'. apply Hf'. tauto.
-    - apply IH2. apply IH1. split; auto.
+    induction a as [|y r IH]; simpl; intros Ha Hb Hd; auto.
+    inversion Ha; subst. constructor.
+    - rewrite in_app_iff. intros [H|H]; [auto|]. eapply Hd; eauto.
+    - apply IH; auto.
   Qed.
-End Evo.
-#[global] Hint Constructors evo : conc.
+  Lemma nodup_app_l (a b : list B) : NoDup (a ++ b) -> NoDup a.
+  Proof. induction a as [|y r IH]; simpl; intros H; [constructor|]. inversion H; subst. constructor; [|auto]. intros Hi. apply H2. apply in_app_iff; auto. Qed.
+  Lemma nodup_app_r (a b : list B) : NoDup (a ++ b) -> NoDup b.
+  Proof. induction a as [|y r IH]; simpl; intros H; auto. inversion H; subst; auto. Qed.
+  Lemma nodup_app_disj (a b : list B) x : NoDup (a ++ b) -> In x a -> ~ In x b.
+  Proof.
+    induction a as [|y r IH]; simpl; intros H Hi Hb; [destruct Hi|]. destruct Hi as [E|Hi].
+    - subst. inversion H; subst. apply H2. apply in_app_iff; auto.
+    - inversion H; subst. eapply IH; eauto.
+  Qed.
 
-Definition tevo (g g' : gst) : Prop := evo t_id (g_txs g) (g_ntx g) (g_txs g') (g_ntx g').
-Definition levo (g g' : gst) : Prop := evo l_id (g_logs g) (g_nlog g) (g_logs g') (g_nlog g').
+  Variable keyf : A -> list B.
+  Lemma flat_map_map_same (f : A -> A) l : (forall x, In x l -> keyf (f x) = keyf x) -> flat_map keyf (map f l) = flat_map keyf l.
+  Proof. induction l as [|x r IH]; simpl; intros H; auto. rewrite H by auto. rewrite IH; auto. Qed.
+  Lemma in_flat_filter (p : A -> bool) l j : In j (flat_map keyf (filter p l)) -> In j (flat_map keyf l).
+  Proof. rewrite !in_flat_map. intros [x [Hx Hj]]. apply filter_In in Hx. exists x; tauto. Qed.
+  Lemma nodup_flat_filter (p : A -> bool) l : NoDup (flat_map keyf l) -> NoDup (flat_map keyf (filter p l)).
+  Proof.
+    induction l as [|x r IH]; simpl; intros H; auto.
+    destruct (p x); simpl.
+    - apply nodup_app_intro; [eapply nodup_app_l; eauto | apply IH; eapply nodup_app_r; eauto |].
+      intros j Hj Hj'. apply in_flat_filter in Hj'. eapply nodup_app_disj; eauto.
+    - apply IH. eapply nodup_app_r; eauto.
+  Qed.
 
-Lemma t_release_id w x : t_id (t_release w x) = t_id x.
+  Variable idf : A -> Z.
+  Lemma nodup_snoc (l : list B) x : NoDup l -> ~ In x l -> NoDup (l ++ [x]).
+  Proof. intros. apply nodup_app_intro; auto. - constructor; [intros []|constructor]. - intros y Hy [E|[]]. subst. auto. Qed.
+  (* publication: one row (identified by its id) starts exposing the key k, which nobody exposes yet *)
+  Lemma pub_keys (f : A -> A) (id : Z) (k : B) l :
+    NoDup (map idf l) -> NoDup (flat_map keyf l) -> ~ In k (flat_map keyf l) ->
+    (forall x, keyf (f x) = keyf x \/ (idf x = id /\ keyf x = [] /\ keyf (f x) = [k])) ->
+    NoDup (flat_map keyf (map f l)) /\ (forall j, In j (flat_map keyf (map f l)) -> In j (flat_map keyf l) \/ j = k).
+  Proof.
+    intros Hid Hk Hnk Hf. induction l as [|x r IH]; simpl; [split; [constructor|intros j []]|].
+    simpl in *. inversion Hid as [|? ? Hx Hr]; subst.
+    assert (Hkr : ~ In k (flat_map keyf r)) by (intros H; apply Hnk; apply in_app_iff; auto).
+    destruct (IH Hr (nodup_app_r _ _ Hk) Hkr) as [IH1 IH2].
+    destruct (Hf x) as [E|[Ei [E0 Ek]]].
+    - rewrite E. split.
+      + apply nodup_app_intro; [eapply nodup_app_l; eauto|exact IH1|].
+        intros j Hj Hj'. destruct (IH2 j Hj') as [H|H].
+        * eapply nodup_app_disj; eauto.
+        * subst. apply Hnk. apply in_app_iff; auto.
+      + intros j Hj. apply in_app_iff in Hj. destruct Hj as [Hj|Hj]; [left; apply in_app_iff; auto|].
+        destruct (IH2 j Hj); [left; apply in_app_iff; auto|auto].
+    - assert (Hs : flat_map keyf (map f r) = flat_map keyf r).
+      { apply flat_map_map_same. intros y Hy. destruct (Hf y) as [E|[Ey _]]; auto.
+        exfalso. apply Hx. rewrite Ei, <- Ey. apply in_map; auto. }
+      rewrite Ek, Hs, E0 in *. simpl. split.
+      + constructor; auto.
+      + intros j [Hj|Hj]; auto.
+  Qed.
+End Lists.
+
+(* sorted lists of integers *)
+Lemma sorted_app (a b : list Z) : StronglySorted Z.lt a -> StronglySorted Z.lt b -> (forall x y, In x a -> In y b -> x < y) -> StronglySorted Z.lt (a ++ b).
+Proof.
+  induction a as [|x r IH]; simpl; intros Ha Hb H; auto.
+  inversion Ha; subst. constructor; [apply IH; auto|].
+  apply Forall_app. split; auto. apply Forall_forall. intros y Hy. apply H; auto.
+Qed.
+Lemma sorted_nodup (l : list Z) : StronglySorted Z.lt l -> NoDup l.
+Proof. induction 1 as [|x r Hs IH Hf]; constructor; [|exact IH]. intros Hin. rewrite Forall_forall in Hf. specialize (Hf x Hin). lia. Qed.
+Lemma sorted_map_filter {A} (idf : A -> Z) (p : A -> bool) l : StronglySorted Z.lt (map idf l) -> StronglySorted Z.lt (map idf (filter p l)).
+Proof.
+  induction l as [|x r IH]; simpl; intros H; auto. inversion H; subst.
+  destruct (p x); simpl; auto. constructor; auto.
+  apply Forall_forall. intros y Hy. apply in_map_iff in Hy. destruct Hy as [z [Hz Hy]]. apply filter_In in Hy.
+  rewrite Forall_forall in H3. apply H3. apply in_map_iff. exists z; tauto.
+Qed.
+
+(* ---------------------------------------------------------------- the transactions table *)
+(* the reference a row holds in the unique index (ledger, reference) where reference <> '' *)
+Definition tkeys (t : trow) : list string := if t_pend t || String.eqb (t_ref t) "" then [] else [t_ref t].
+
+(* how one store call changes (transactions, transaction_id sequence, reverted targets) *)
+Inductive tevo : list trow -> Z -> list Z -> list trow -> Z -> list Z -> Prop :=
+| te_refl l n r : tevo l n r l n r
+| te_app l n r row : t_id row = n -> t_pend row = true -> t_rev row = false -> t_revlock row = None -> tevo l n r (l ++ [row]) (n + 1) r
+| te_map l n r f :
+    (forall x, t_id (f x) = t_id x /\ tkeys (f x) = tkeys x /\ t_rev (f x) = t_rev x /\
+               (t_revlock (f x) = t_revlock x \/ t_revlock (f x) = None \/ t_rev x = false)) -> tevo l n r (map f l) n r
+| te_filter l n r p : tevo l n r (filter p l) n r
+| te_pub l n r f id k :
+    (forall x, t_id (f x) = t_id x /\ t_rev (f x) = t_rev x /\ t_revlock (f x) = t_revlock x) ->
+    (forall x, tkeys (f x) = tkeys x \/ (t_id x = id /\ tkeys x = [] /\ tkeys (f x) = [k])) ->
+    ~ In k (flat_map tkeys l) -> tevo l n r (map f l) n r
+| te_commit l n r w : tevo l n r (map (t_commit w) l) n (r ++ map t_id (filter (fun t => owner_is (t_revlock t) w) l))
+| te_trans l1 n1 r1 l2 n2 r2 l3 n3 r3 : tevo l1 n1 r1 l2 n2 r2 -> tevo l2 n2 r2 l3 n3 r3 -> tevo l1 n1 r1 l3 n3 r3.
+
+Record tx_ok (l : list trow) (n : Z) (r : list Z) : Prop := {
+  tx_ids : NoDup (map t_id l);
+  tx_below : Forall (fun t => t_id t < n) l;
+  tx_keys : NoDup (flat_map tkeys l);                                   (* C14: unique index on non-empty references *)
+  tx_revs : NoDup r;                                                    (* C15: a transaction is reverted at most once *)
+  tx_revs_below : Forall (fun i => i < n) r;
+  tx_rev_marked : forall t, In t l -> In (t_id t) r -> t_rev t = true;
+  tx_lock_unrev : forall t, In t l -> t_revlock t <> None -> t_rev t = false }.
+
+Lemma owner_is_true o w : owner_is o w = true -> o = Some w.
+Proof. destruct o as [x|]; simpl; [|discriminate]. intros H. apply Nat.eqb_eq in H. subst; auto. Qed.
+
+Lemma tevo_ok l n r l' n' r' : tevo l n r l' n' r' -> tx_ok l n r -> tx_ok l' n' r'.
+Proof.
+  induction 1 as [l n r|l n r row Hi Hp Hrv Hrl|l n r f Hf|l n r p|l n r f id k Hf Hk Hnk|l n r w|l1 n1 r1 l2 n2 r2 l3 n3 r3 _ IH1 _ IH2]; intros [A B C D E F G].
+  - split; auto.
+  - (* fresh row *)
+    assert (Hfresh : ~ In (t_id row) (map t_id l)).
+    { intros Hin. apply in_map_iff in Hin. destruct Hin as [z [Hz Hin]]. rewrite Forall_forall in B. specialize (B z Hin). lia. }
+    split.
+    + rewrite map_app. simpl. apply nodup_snoc; auto.
+    + apply Forall_app. split; [eapply Forall_impl; [|exact B]; simpl; intros; lia|constructor; [lia|constructor]].
+    + rewrite flat_map_app. simpl. unfold tkeys at 2. rewrite Hp. simpl. rewrite app_nil_r. exact C.
+    + exact D.
+    + eapply Forall_impl; [|exact E]. simpl; intros; lia.
+    + intros t Ht Hr. apply in_app_iff in Ht. destruct Ht as [Ht|[Ht|[]]]; auto. subst.
+      rewrite Forall_forall in E. specialize (E _ Hr). lia.
+    + intros t Ht Hl. apply in_app_iff in Ht. destruct Ht as [Ht|[Ht|[]]]; auto. subst. exact Hrv.
+  - (* neutral rewrite *)
+    split; auto.
+    + rewrite map_map. erewrite map_ext; [exact A|]. intros; apply Hf.
+    + apply Forall_forall. intros x Hx. apply in_map_iff in Hx. destruct Hx as [z [Hz Hin]]. subst.
+      destruct (Hf z) as [-> _]. rewrite Forall_forall in B; auto.
+    + rewrite flat_map_map_same; auto. intros; apply Hf.
+    + intros t Ht Hr. apply in_map_iff in Ht. destruct Ht as [z [Hz Hin]]. subst. destruct (Hf z) as [E1 [_ [E3 _]]].
+      rewrite E3. apply F; auto. rewrite <- E1; auto.
+    + intros t Ht Hl. apply in_map_iff in Ht. destruct Ht as [z [Hz Hin]]. subst. destruct (Hf z) as [_ [_ [E3 [E4|[E4|E4]]]]]; rewrite E3.
+      * apply G; auto. rewrite <- E4; auto.
+      * contradiction.
+      * exact E4.
+  - (* removal *)
+    split; auto.
+    + apply nodup_map_filter; auto.
+    + apply Forall_forall. intros x Hx. apply filter_In in Hx. rewrite Forall_forall in B. apply B; tauto.
+    + apply nodup_flat_filter; auto.
+    + intros t Ht. apply filter_In in Ht. apply F; tauto.
+    + intros t Ht. apply filter_In in Ht. apply G; tauto.
+  - (* publication *)
+    split; auto.
+    + rewrite map_map. erewrite map_ext; [exact A|]. intros; apply Hf.
+    + apply Forall_forall. intros x Hx. apply in_map_iff in Hx. destruct Hx as [z [Hz Hin]]. subst.
+      destruct (Hf z) as [-> _]. rewrite Forall_forall in B; auto.
+    + eapply (pub_keys tkeys t_id f id k); eauto.
+    + intros t Ht Hr. apply in_map_iff in Ht. destruct Ht as [z [Hz Hin]]. subst. destruct (Hf z) as [E1 [E3 _]].
+      rewrite E3. apply F; auto. rewrite <- E1; auto.
+    + intros t Ht Hl. apply in_map_iff in Ht. destruct Ht as [z [Hz Hin]]. subst. destruct (Hf z) as [_ [E3 E4]]. rewrite E3.
+      apply G; auto. rewrite <- E4; auto.
+  - (* commit of w: its rows become visible, its revert marks are set *)
+    set (new := map t_id (filter (fun t => owner_is (t_revlock t) w) l)).
+    assert (Hnew : forall i, In i new -> exists t, In t l /\ t_revlock t = Some w /\ t_id t = i).
+    { intros i Hi. apply in_map_iff in Hi. destruct Hi as [t [Ht Hi]]. apply filter_In in Hi. destruct Hi as [Hi Ho].
+      exists t. split; auto. split; auto. apply owner_is_true; auto. }
+    split.
+    + rewrite map_map. simpl. exact A.
+    + apply Forall_forall. intros x Hx. apply in_map_iff in Hx. destruct Hx as [z [Hz Hin]]. subst. simpl.
+      rewrite Forall_forall in B; auto.
+    + rewrite flat_map_map_same; auto.
+    + apply nodup_app_intro; auto.
+      * apply nodup_map_filter; auto.
+      * intros i Hi Hn. destruct (Hnew i Hn) as [t [Ht [Hl Hid]]]. subst i.
+        assert (t_rev t = true) by (apply F; auto). assert (t_rev t = false) by (apply G; auto; congruence). congruence.
+    + apply Forall_app. split; auto. apply Forall_forall. intros i Hi. destruct (Hnew i Hi) as [t [Ht [_ Hid]]]. subst i.
+      rewrite Forall_forall in B; auto.
+    + intros t Ht Hr. apply in_map_iff in Ht. destruct Ht as [z [Hz Hin]]. subst. simpl in *.
+      apply in_app_iff in Hr. destruct Hr as [Hr|Hr].
+      * rewrite (F z Hin Hr). destruct (owner_is _ _); auto.
+      * destruct (Hnew _ Hr) as [t [Ht [Hl Hid]]].
+        assert (t = z) by (eapply (nodup_map_inj t_id); eauto). subst. rewrite Hl. simpl. rewrite Nat.eqb_refl. reflexivity.
+    + intros t Ht Hl. apply in_map_iff in Ht. destruct Ht as [z [Hz Hin]]. subst. simpl in *.
+      destruct (owner_is (t_revlock z) w); [contradiction|]. apply G; auto.
+  - apply IH2. apply IH1. split; auto.
+Qed.
+
+Definition txv (g : gst) := (g_txs g, g_ntx g, g_revs g).
+Definition tev (g g' : gst) : Prop := tevo (g_txs g) (g_ntx g) (g_revs g) (g_txs g') (g_ntx g') (g_revs g').
+Lemma tev_same g g' : g_txs g' = g_txs g -> g_ntx g' = g_ntx g -> g_revs g' = g_revs g -> tev g g'.
+Proof. unfold tev. intros -> -> ->. apply te_refl. Qed.
+Lemma tev_trans g1 g2 g3 : tev g1 g2 -> tev g2 g3 -> tev g1 g3.
+Proof. unfold tev. intros. eapply te_trans; eauto. Qed.
+
+Lemma tkeys_release w x : tkeys (t_release w x) = tkeys x.
 Proof. unfold t_release. destruct (owner_is _ _); reflexivity. Qed.
-Lemma t_commit_id w x : t_id (t_commit w x) = t_id x.
-Proof. reflexivity. Qed.
-Lemma t_publish_id i x : t_id (t_publish i x) = t_id x.
-Proof. unfold t_publish. destruct (_ =? _); reflexivity. Qed.
-Lemma l_commit_id w x : l_id (l_commit w x) = l_id x.
-Proof. reflexivity. Qed.
-Lemma l_publish_id i x : l_id (l_publish i x) = l_id x.
-Proof. unfold l_publish. destruct (_ =? _); reflexivity. Qed.
 
-Lemma tevo_abort g w : tevo g (abort g w).
-Proof. unfold tevo, abort; simpl. eapply evo_trans; [apply evo_filter|apply evo_map]. apply t_release_id. Qed.
-Lemma levo_abort g w : levo g (abort g w).
-Proof. unfold levo, abort; simpl. apply evo_filter. Qed.
+Lemma tev_abort g w : tev g (abort g w).
+Proof.
+  unfold tev, abort; simpl. eapply te_trans; [apply te_filter|apply te_map].
+  intros x. unfold t_release. destruct (owner_is (t_revlock x) w); simpl; repeat split; auto.
+Qed.
+Lemma tev_blocked g w h l : tev g (blocked g w h l).
+Proof. unfold blocked. destruct (reaches _ _ _ _); [apply (tev_abort g w)|apply tev_same; reflexivity]. Qed.
+Lemma tev_bal_done g w o r lk : tev g (bal_done g w o r lk).
+Proof. unfold bal_done. brk; apply tev_same; reflexivity. Qed.
 
-Lemma tevo_blocked g w h l : tevo g (blocked g w h l).
-Proof. unfold blocked. destruct (reaches _ _ _ _); unfold tevo; simpl; [apply tevo_abort|apply evo_refl]. Qed.
-Lemma levo_blocked g w h l : levo g (blocked g w h l).
-Proof. unfold blocked. destruct (reaches _ _ _ _); unfold levo; simpl; [apply levo_abort|apply evo_refl]. Qed.
-
-Lemma tevo_trans g1 g2 g3 : tevo g1 g2 -> tevo g2 g3 -> tevo g1 g3.
-Proof. unfold tevo. intros. eapply evo_trans; eauto. Qed.
-Lemma levo_trans g1 g2 g3 : levo g1 g2 -> levo g2 g3 -> levo g1 g3.
-Proof. unfold levo. intros. eapply evo_trans; eauto. Qed.
-
-(* same tables, same sequences *)
-Definition same_tx (g g' : gst) := g_txs g' = g_txs g /\ g_ntx g' = g_ntx g.
-Definition same_log (g g' : gst) := g_logs g' = g_logs g /\ g_nlog g' = g_nlog g.
-Lemma same_tevo g g' : same_tx g g' -> tevo g g'.
-Proof. intros [H1 H2]. unfold tevo. rewrite H1, H2. apply evo_refl. Qed.
-Lemma same_levo g g' : same_log g g' -> levo g g'.
-Proof. intros [H1 H2]. unfold levo. rewrite H1, H2. apply evo_refl. Qed.
-
-Lemma bal_done_same_tx g w o r lk : same_tx g (bal_done g w o r lk).
-Proof. unfold bal_done. brk; split; reflexivity. Qed.
-Lemma bal_done_same_log g w o r lk : same_log g (bal_done g w o r lk).
-Proof. unfold bal_done. brk; split; reflexivity. Qed.
-
-Lemma vol_loop_tevo ks : forall g w i, tevo g (vol_loop g w ks i).
+Lemma tev_vol_loop ks : forall g w i, tev g (vol_loop g w ks i).
 Proof.
   induction ks as [|[k d] r IH]; simpl; intros g w i.
-  - apply same_tevo; split; reflexivity.
-  - brk; try (eapply tevo_trans; [|apply IH]; apply same_tevo; split; reflexivity).
-    eapply tevo_trans; [|apply tevo_blocked]. apply same_tevo; split; reflexivity.
+  - apply tev_same; reflexivity.
+  - brk; try (eapply tev_trans; [|apply IH]; apply tev_same; reflexivity).
+    eapply tev_trans; [|apply tev_blocked]. apply tev_same; reflexivity.
 Qed.
-Lemma vol_loop_levo ks : forall g w i, levo g (vol_loop g w ks i).
+
+Lemma tev_do_bal g w s : tev g (do_bal g w s).
+Proof.
+  unfold do_bal. brk;
+    try (eapply tev_trans; [|apply tev_blocked]; apply tev_same; reflexivity);
+    try (unfold ev; match goal with |- tev ?g (set_ev (bal_done ?g1 ?w ?o ?r ?lk) _) =>
+           pose proof (tev_bal_done g1 w o r lk) as H; unfold tev in *; simpl in *; exact H end).
+Qed.
+
+Lemma find_none_keys (ref : string) l :
+  find (fun t => String.eqb (t_ref t) ref && negb (t_pend t)) l = None -> ~ In ref (flat_map tkeys l).
+Proof.
+  intros Hf Hin. apply in_flat_map in Hin. destruct Hin as [t [Ht Hk]].
+  pose proof (find_none _ _ Hf t Ht) as Hn. simpl in Hn. unfold tkeys in Hk.
+  destruct (t_pend t); simpl in *; [contradiction|]. destruct (String.eqb (t_ref t) ""); [contradiction|].
+  destruct Hk as [Hk|[]]. subst. rewrite String.eqb_refl in Hn. discriminate.
+Qed.
+
+Lemma t_publish_props id ref x : t_id (t_publish id ref x) = t_id x /\ t_rev (t_publish id ref x) = t_rev x /\ t_revlock (t_publish id ref x) = t_revlock x.
+Proof. unfold t_publish. destruct (_ && _); simpl; auto. Qed.
+Lemma t_publish_keys id ref x :
+  tkeys (t_publish id ref x) = tkeys x \/ (t_id x = id /\ tkeys x = [] /\ tkeys (t_publish id ref x) = [ref]).
+Proof.
+  unfold t_publish. destruct ((t_id x =? id) && String.eqb (t_ref x) ref) eqn:E; [|left; reflexivity].
+  apply andb_true_iff in E. destruct E as [E1 E2]. apply Z.eqb_eq in E1. apply String.eqb_eq in E2.
+  unfold tkeys; simpl. destruct (t_pend x); simpl; [|left; reflexivity].
+  destruct (String.eqb (t_ref x) ""); [left; reflexivity|]. right. subst. auto.
+Qed.
+Lemma t_publish_keys_empty id x : tkeys (t_publish id "" x) = tkeys x.
+Proof.
+  unfold t_publish. destruct ((t_id x =? id) && String.eqb (t_ref x) "") eqn:E; [|reflexivity].
+  apply andb_true_iff in E. destruct E as [_ E2]. unfold tkeys; simpl. rewrite E2. rewrite !orb_true_r. reflexivity.
+Qed.
+
+(* the insert phase of do_tx from a state g1: publication of the pending row *)
+Lemma tev_tx_insert_checked g1 (w : wid) id ref pc :
+  find (fun t => String.eqb (t_ref t) ref && negb (t_pend t)) (g_txs g1) = None ->
+  tev g1 (ev (upd_w (set_txs g1 (map (t_publish id ref) (g_txs g1))) w (fun s => wset_pc s pc)) w LTx SDone).
+Proof.
+  intros Hf. unfold tev; simpl. apply (te_pub _ _ _ _ id ref).
+  - intros x. apply t_publish_props.
+  - intros x. apply t_publish_keys.
+  - apply find_none_keys; auto.
+Qed.
+Lemma tev_tx_insert_empty g1 (w : wid) id pc :
+  tev g1 (ev (upd_w (set_txs g1 (map (t_publish id "") (g_txs g1))) w (fun s => wset_pc s pc)) w LTx SDone).
+Proof.
+  unfold tev; simpl. apply te_map. intros x. destruct (t_publish_props id "" x) as [A [B C]].
+  repeat split; auto. apply t_publish_keys_empty.
+Qed.
+
+Lemma tev_do_tx g w s : tev g (do_tx g w s).
+Proof.
+  unfold do_tx. destruct (my_pending_tx g w) as [r0|] eqn:Hp.
+  - destruct (String.eqb (t_ref r0) "") eqn:Er.
+    + apply String.eqb_eq in Er. rewrite Er. apply tev_tx_insert_empty.
+    + destruct (find _ (g_txs g)) as [t|] eqn:Hf.
+      * destruct (t_own t); [apply tev_blocked|]. unfold ev, fail_abort. pose proof (tev_abort g w) as H. unfold tev in *; simpl in *; exact H.
+      * apply tev_tx_insert_checked; auto.
+  - set (row := {| t_id := g_ntx g; t_ref := tx_ref (w_op s); t_own := Some w; t_rev := false; t_revlock := None; t_pend := true |}).
+    set (g1 := upd_w (set_ntx (set_txs g (g_txs g ++ [row])) (g_ntx g + 1)) w (fun s0 => wset_txid s0 (Some (g_ntx g)))).
+    assert (Hd : tev g g1) by (unfold tev, g1; simpl; apply te_app; reflexivity).
+    eapply tev_trans; [exact Hd|]. simpl.
+    destruct (String.eqb (tx_ref (w_op s)) "") eqn:Er.
+    + apply String.eqb_eq in Er. rewrite Er. apply (tev_tx_insert_empty g1).
+    + match goal with |- context [find ?p ?l] => destruct (find p l) as [t|] eqn:Hf end.
+      * destruct (t_own t); [apply (tev_blocked g1)|]. unfold ev, fail_abort. pose proof (tev_abort g1 w) as H. unfold tev in *; simpl in *; exact H.
+      * apply (tev_tx_insert_checked g1); auto.
+Qed.
+
+Lemma tev_do_log g w s : tev g (do_log g w s).
+Proof.
+  unfold do_log. destruct (g_hash g && negb (owner_is (g_adv g) w)); [apply tev_same; reflexivity|].
+  destruct (my_pending_log g w); brk; try (apply tev_same; reflexivity);
+    try (match goal with |- tev ?g (blocked ?g1 ?w ?h ?l) => pose proof (tev_blocked g1 w h l) as H; unfold tev in *; simpl in *; exact H end);
+    try (match goal with |- tev ?g (ev (fail_abort ?g1 ?w ?e) _ _ _) => pose proof (tev_abort g1 w) as H; unfold tev in *; simpl in *; exact H end).
+Qed.
+
+Lemma step_tev g w : tev g (step g w).
+Proof.
+  unfold step. destruct (get_w g w) as [s|]; [|apply tev_same; reflexivity].
+  destruct (w_pc s).
+  - unfold do_ik. brk; apply tev_same; reflexivity.
+  - unfold do_rev. brk; try (apply tev_blocked); try (apply tev_same; reflexivity).
+    unfold tev; simpl. apply te_map. intros x.
+    destruct ((t_id x =? o_tx (w_op s)) && _ && negb (t_rev x) && _) eqn:E; simpl; repeat split; auto.
+    apply andb_true_iff in E. destruct E as [E _]. apply andb_true_iff in E. destruct E as [_ E].
+    right; right. destruct (t_rev x); [discriminate|reflexivity].
+  - apply tev_do_bal.
+  - apply tev_vol_loop.
+  - apply tev_do_tx.
+  - unfold do_adv. brk; try (apply tev_blocked); apply tev_same; reflexivity.
+  - apply tev_do_log.
+  - unfold do_commit, tev; simpl. apply te_commit.
+  - unfold do_rollback. pose proof (tev_abort g w) as H. brk; unfold tev in *; simpl in *; exact H.
+  - unfold do_fetch. brk; apply tev_same; reflexivity.
+  - apply tev_same; reflexivity.
+Qed.
+
+Definition tx_inv (g : gst) : Prop := tx_ok (g_txs g) (g_ntx g) (g_revs g).
+Lemma step_tx_inv g w : tx_inv g -> tx_inv (step g w).
+Proof. intros H. eapply tevo_ok; [apply step_tev|exact H]. Qed.
+Theorem tx_inv_all_schedules g sched : tx_inv g -> tx_inv (run g sched).
+Proof. apply run_inv. apply step_tx_inv. Qed.
+
+(* ---------------------------------------------------------------- the logs table, its sequence, the advisory lock *)
+Definition lkeys (l : lrow) : list string := if l_pend l || String.eqb (l_ik l) "" then [] else [l_ik l].
+
+(* how one store call changes (logs, log_id sequence, advisory-lock holder, log ids in commit order); hash = HASH_LOGS is SYNC *)
+Inductive levo (hash : bool) : list lrow -> Z -> option wid -> list Z -> list lrow -> Z -> option wid -> list Z -> Prop :=
+| le_refl l n a c : levo hash l n a c l n a c
+| le_draw l n a c w row : (hash = true -> a = Some w) -> l_id row = n -> l_pend row = true -> l_own row = Some w ->
+    levo hash l n a c (l ++ [row]) (n + 1) a c
+| le_pub l n a c f id k :
+    (forall x, l_id (f x) = l_id x /\ l_own (f x) = l_own x) ->
+    (forall x, lkeys (f x) = lkeys x \/ (l_id x = id /\ lkeys x = [] /\ lkeys (f x) = [k])) ->
+    ~ In k (flat_map lkeys l) -> levo hash l n a c (map f l) n a c
+| le_map l n a c f : (forall x, l_id (f x) = l_id x /\ l_own (f x) = l_own x /\ lkeys (f x) = lkeys x) -> levo hash l n a c (map f l) n a c
+| le_commit l n a c w :
+    levo hash l n a c (map (l_commit w) l) n (if owner_is a w then None else a) (c ++ map l_id (filter (fun x => owner_is (l_own x) w) l))
+| le_abort l n a c w :
+    levo hash l n a c (filter (fun x => negb (owner_is (l_own x) w)) l) n (if owner_is a w then None else a) c
+| le_acquire l n c w : levo hash l n None c l n (Some w) c
+| le_trans l1 n1 a1 c1 l2 n2 a2 c2 l3 n3 a3 c3 :
+    levo hash l1 n1 a1 c1 l2 n2 a2 c2 -> levo hash l2 n2 a2 c2 l3 n3 a3 c3 -> levo hash l1 n1 a1 c1 l3 n3 a3 c3.
+
+Record log_ok (hash : bool) (l : list lrow) (n : Z) (a : option wid) (c : list Z) : Prop := {
+  lg_sorted : StronglySorted Z.lt (map l_id l);                         (* ids in insertion order: unique *)
+  lg_below : Forall (fun x => l_id x < n) l;
+  lg_keys : NoDup (flat_map lkeys l);                                   (* C13: unique index on idempotency keys *)
+  (* C16, with the advisory lock taken before nextval: *)
+  lg_order : hash = true -> StronglySorted Z.lt c;
+  lg_cbelow : hash = true -> Forall (fun i => i < n) c;
+  lg_holder : hash = true -> forall x w, In x l -> l_own x = Some w -> a = Some w /\ Forall (fun i => i < l_id x) c }.
+
+Lemma sorted_snoc (l : list Z) x : StronglySorted Z.lt l -> Forall (fun y => y < x) l -> StronglySorted Z.lt (l ++ [x]).
+Proof.
+  intros Hs Hf. apply sorted_app; auto.
+  - constructor; constructor.
+  - intros a b Ha [Hb|[]]. subst. rewrite Forall_forall in Hf. auto.
+Qed.
+
+Lemma levo_ok hash l n a c l' n' a' c' : levo hash l n a c l' n' a' c' -> log_ok hash l n a c -> log_ok hash l' n' a' c'.
+Proof.
+  induction 1 as [l n a c|l n a c w row Hg Hi Hp Ho|l n a c f id k Hf Hk Hnk|l n a c f Hf|l n a c w|l n a c w|l n c w|
+                  l1 n1 a1 c1 l2 n2 a2 c2 l3 n3 a3 c3 _ IH1 _ IH2]; intros [A B C D E F].
+  - split; auto.
+  - (* nextval + pending row *)
+    split.
+    + rewrite map_app. simpl. apply sorted_snoc; auto. apply Forall_forall. intros y Hy. apply in_map_iff in Hy.
+      destruct Hy as [z [Hz Hy]]. subst. rewrite Forall_forall in B. specialize (B z Hy). lia.
+    + apply Forall_app. split; [eapply Forall_impl; [|exact B]; simpl; intros; lia|constructor; [lia|constructor]].
+    + rewrite flat_map_app. simpl. unfold lkeys at 2. rewrite Hp. simpl. rewrite app_nil_r. exact C.
+    + exact D.
+    + intros H. eapply Forall_impl; [|exact (E H)]. simpl; intros; lia.
+    + intros H x w0 Hx Hw. apply in_app_iff in Hx. destruct Hx as [Hx|[Hx|[]]]; [eapply F; eauto|].
+      subst x. rewrite Ho in Hw. inversion Hw; subst w0. split; [auto|]. rewrite Hi. exact (E H).
+  - (* publication *)
+    split; auto.
+    + rewrite map_map. erewrite map_ext; [exact A|]. intros; apply Hf.
+    + apply Forall_forall. intros x Hx. apply in_map_iff in Hx. destruct Hx as [z [Hz Hin]]. subst.
+      destruct (Hf z) as [-> _]. rewrite Forall_forall in B; auto.
+    + eapply (pub_keys lkeys l_id f id k); eauto. apply sorted_nodup; auto.
+    + intros H x w0 Hx Hw. apply in_map_iff in Hx. destruct Hx as [z [Hz Hin]]. subst x. destruct (Hf z) as [E1 E2].
+      rewrite E1. rewrite E2 in Hw. eapply F; eauto.
+  - (* neutral rewrite *)
+    split; auto.
+    + rewrite map_map. erewrite map_ext; [exact A|]. intros; apply Hf.
+    + apply Forall_forall. intros x Hx. apply in_map_iff in Hx. destruct Hx as [z [Hz Hin]]. subst.
+      destruct (Hf z) as [-> _]. rewrite Forall_forall in B; auto.
+    + rewrite flat_map_map_same; auto. intros; apply Hf.
+    + intros H x w0 Hx Hw. apply in_map_iff in Hx. destruct Hx as [z [Hz Hin]]. subst x. destruct (Hf z) as [E1 [E2 _]].
+      rewrite E1. rewrite E2 in Hw. eapply F; eauto.
+  - (* commit of w *)
+    remember (map l_id (filter (fun x => owner_is (l_own x) w) l)) as new eqn:Enew.
+    assert (Hnew : forall i, In i new -> exists x, In x l /\ l_own x = Some w /\ l_id x = i).
+    { intros i Hi. rewrite Enew in Hi. apply in_map_iff in Hi. destruct Hi as [x [Hx Hi]]. apply filter_In in Hi. destruct Hi as [Hi Ho].
+      exists x. split; auto. split; auto. apply owner_is_true; auto. }
+    split.
+    + rewrite map_map. simpl. exact A.
+    + apply Forall_forall. intros x Hx. apply in_map_iff in Hx. destruct Hx as [z [Hz Hin]]. subst. simpl. rewrite Forall_forall in B; auto.
+    + rewrite flat_map_map_same; auto.
+    + intros H. apply sorted_app; [auto|rewrite Enew; apply sorted_map_filter; auto|].
+      intros x y Hx Hy. destruct (Hnew y Hy) as [z [Hz [Ho Hid]]]. subst y. destruct (F H z w Hz Ho) as [_ Hlt].
+      rewrite Forall_forall in Hlt. auto.
+    + intros H. apply Forall_app. split; auto. apply Forall_forall. intros i Hi. destruct (Hnew i Hi) as [z [Hz [_ Hid]]]. subst i.
+      rewrite Forall_forall in B; auto.
+    + intros H x w0 Hx Hw. apply in_map_iff in Hx. destruct Hx as [z [Hz Hin]]. subst x. simpl in *.
+      destruct (owner_is (l_own z) w) eqn:Eo; [discriminate|].
+      destruct (F H z w0 Hin Hw) as [Ha Hlt]. subst a.
+      assert (Hne : new = []).
+      { clear Enew. destruct new as [|i rest]; auto. exfalso. destruct (Hnew i) as [y [Hy [Hoy _]]]; [left; auto|].
+        destruct (F H y w Hy Hoy) as [Ha _]. inversion Ha; subst. rewrite Hw in Eo. simpl in Eo. rewrite Nat.eqb_refl in Eo. discriminate. }
+      rewrite Hne, app_nil_r. split; auto.
+      assert (w0 <> w). { intros ->. rewrite Hw in Eo. simpl in Eo. rewrite Nat.eqb_refl in Eo. discriminate. }
+      simpl. destruct (Nat.eqb w0 w) eqn:En; auto. apply Nat.eqb_eq in En. contradiction.
+  - (* abort of w *)
+    split; auto.
+    + apply sorted_map_filter; auto.
+    + apply Forall_forall. intros x Hx. apply filter_In in Hx. rewrite Forall_forall in B. apply B; tauto.
+    + apply nodup_flat_filter; auto.
+    + intros H x w0 Hx Hw. apply filter_In in Hx. destruct Hx as [Hx Hn].
+      destruct (F H x w0 Hx Hw) as [Ha Hlt]. subst a. split; auto.
+      rewrite Hw in Hn. simpl in *. destruct (Nat.eqb w0 w); [discriminate|reflexivity].
+  - (* the advisory lock is taken: it was free, so nobody has a log in flight *)
+    split; auto.
+    intros H x w0 Hx Hw. destruct (F H x w0 Hx Hw) as [Ha _]. discriminate.
+  - apply IH2. apply IH1. split; auto.
+Qed.
+
+Definition lev (g g' : gst) : Prop :=
+  levo (g_hash g) (g_logs g) (g_nlog g) (g_adv g) (g_clogs g) (g_logs g') (g_nlog g') (g_adv g') (g_clogs g') /\ g_hash g' = g_hash g.
+Lemma lev_same g g' : g_logs g' = g_logs g -> g_nlog g' = g_nlog g -> g_adv g' = g_adv g -> g_clogs g' = g_clogs g -> g_hash g' = g_hash g -> lev g g'.
+Proof. unfold lev. intros -> -> -> -> ->. split; [apply le_refl|reflexivity]. Qed.
+Lemma lev_trans g1 g2 g3 : lev g1 g2 -> lev g2 g3 -> lev g1 g3.
+Proof. unfold lev. intros [H1 E1] [H2 E2]. split; [|congruence]. rewrite E1 in H2. eapply le_trans; eauto. Qed.
+
+Lemma lev_abort g w : lev g (abort g w).
+Proof. unfold lev, abort; simpl. split; [apply le_abort|reflexivity]. Qed.
+Lemma lev_blocked g w h l : lev g (blocked g w h l).
+Proof. unfold blocked. destruct (reaches _ _ _ _); [apply (lev_abort g w)|apply lev_same; reflexivity]. Qed.
+Lemma lev_bal_done g w o r lk : lev g (bal_done g w o r lk).
+Proof. unfold bal_done. brk; apply lev_same; reflexivity. Qed.
+Lemma lev_vol_loop ks : forall g w i, lev g (vol_loop g w ks i).
 Proof.
   induction ks as [|[k d] r IH]; simpl; intros g w i.
-  - apply same_levo; split; reflexivity.
-  - brk; try (eapply levo_trans; [|apply IH]; apply same_levo; split; reflexivity).
-    eapply levo_trans; [|apply levo_blocked]. apply same_levo; split; reflexivity.
+  - apply lev_same; reflexivity.
+  - brk; try (eapply lev_trans; [|apply IH]; apply lev_same; reflexivity).
+    eapply lev_trans; [|apply lev_blocked]. apply lev_same; reflexivity.
 Qed.
-
-Lemma do_bal_tevo g w s : tevo g (do_bal g w s).
+Lemma lev_do_bal g w s : lev g (do_bal g w s).
 Proof.
   unfold do_bal. brk;
-    try (eapply tevo_trans; [|apply tevo_blocked]; apply same_tevo; split; reflexivity);
-    try (apply same_tevo; unfold ev; simpl;
-         match goal with |- same_tx ?g (set_ev (bal_done ?g1 ?w ?o ?r ?lk) _) => destruct (bal_done_same_tx g1 w o r lk) as [H1 H2]; split; simpl; [rewrite H1|rewrite H2]; reflexivity end).
+    try (eapply lev_trans; [|apply lev_blocked]; apply lev_same; reflexivity);
+    try (unfold ev; match goal with |- lev ?g (set_ev (bal_done ?g1 ?w ?o ?r ?lk) _) =>
+           pose proof (lev_bal_done g1 w o r lk) as H; unfold lev in *; simpl in *; exact H end).
 Qed.
-Lemma do_bal_levo g w s : levo g (do_bal g w s).
+Lemma lev_do_tx g w s : lev g (do_tx g w s).
 Proof.
-  unfold do_bal. brk;
-    try (eapply levo_trans; [|apply levo_blocked]; apply same_levo; split; reflexivity);
-    try (apply same_levo; unfold ev; simpl;
-         match goal with |- same_log ?g (set_ev (bal_done ?g1 ?w ?o ?r ?lk) _) => destruct (bal_done_same_log g1 w o r lk) as [H1 H2]; split; simpl; [rewrite H1|rewrite H2]; reflexivity end).
-Qed.
-
-Lemma do_tx_tevo g w s : tevo g (do_tx g w s).
-Proof.
-  unfold do_tx. destruct (w_txid s) as [i|].
-  - brk; try (apply tevo_blocked); unfold tevo; simpl;
-      try (apply evo_map; apply t_publish_id);
-      try (eapply evo_trans; [apply evo_filter|apply evo_map; apply t_release_id]).
-  - assert (Hd : evo t_id (g_txs g) (g_ntx g)
-             (g_txs g ++ [{| t_id := g_ntx g; t_ref := tx_ref (w_op s); t_own := Some w; t_rev := false; t_revlock := None; t_pend := true |}]) (g_ntx g + 1))
-      by (apply evo_app; reflexivity).
-    brk; unfold tevo; simpl;
-      try (eapply evo_trans; [exact Hd|]; apply evo_map; apply t_publish_id);
-      try (eapply evo_trans; [exact Hd|]; eapply evo_trans; [apply evo_filter|apply evo_map; apply t_release_id]).
-    all: try (eapply evo_trans; [exact Hd|];
-              match goal with |- evo _ _ _ (g_txs (blocked ?g1 ?w ?h ?l)) _ => exact (tevo_blocked g1 w h l) end).
+  unfold do_tx. destruct (my_pending_tx g w); brk; try (apply lev_same; reflexivity);
+    try (match goal with |- lev ?g (blocked ?g1 ?w ?h ?l) => pose proof (lev_blocked g1 w h l) as H; unfold lev in *; simpl in *; exact H end);
+    try (match goal with |- lev ?g (ev (fail_abort ?g1 ?w ?e) _ _ _) => pose proof (lev_abort g1 w) as H; unfold lev in *; simpl in *; exact H end).
 Qed.
 
-Lemma do_log_levo g w s : levo g (do_log g w s).
+Lemma find_none_lkeys (ik : string) l :
+  find (fun x => String.eqb (l_ik x) ik && negb (l_pend x)) l = None -> ~ In ik (flat_map lkeys l).
 Proof.
-  unfold do_log. destruct (g_hash g && negb (owner_is (g_adv g) w)); [apply same_levo; split; reflexivity|].
-  destruct (w_logid s) as [i|].
-  - brk; try (apply levo_blocked); unfold levo; simpl;
-      try (apply evo_map; apply l_publish_id);
-      try (apply evo_filter).
+  intros Hf Hin. apply in_flat_map in Hin. destruct Hin as [t [Ht Hk]].
+  pose proof (find_none _ _ Hf t Ht) as Hn. simpl in Hn. unfold lkeys in Hk.
+  destruct (l_pend t); simpl in *; [contradiction|]. destruct (String.eqb (l_ik t) ""); [contradiction|].
+  destruct Hk as [Hk|[]]. subst. rewrite String.eqb_refl in Hn. discriminate.
+Qed.
+Lemma l_publish_props id ik x : l_id (l_publish id ik x) = l_id x /\ l_own (l_publish id ik x) = l_own x.
+Proof. unfold l_publish. destruct (_ && _); simpl; auto. Qed.
+Lemma l_publish_keys id ik x :
+  lkeys (l_publish id ik x) = lkeys x \/ (l_id x = id /\ lkeys x = [] /\ lkeys (l_publish id ik x) = [ik]).
+Proof.
+  unfold l_publish. destruct ((l_id x =? id) && String.eqb (l_ik x) ik) eqn:E; [|left; reflexivity].
+  apply andb_true_iff in E. destruct E as [E1 E2]. apply Z.eqb_eq in E1. apply String.eqb_eq in E2.
+  unfold lkeys; simpl. destruct (l_pend x); simpl; [|left; reflexivity].
+  destruct (String.eqb (l_ik x) ""); [left; reflexivity|]. right. subst. auto.
+Qed.
+Lemma l_publish_keys_empty id x : lkeys (l_publish id "" x) = lkeys x.
+Proof.
+  unfold l_publish. destruct ((l_id x =? id) && String.eqb (l_ik x) "") eqn:E; [|reflexivity].
+  apply andb_true_iff in E. destruct E as [_ E2]. unfold lkeys; simpl. rewrite E2. rewrite !orb_true_r. reflexivity.
+Qed.
+Lemma lev_log_insert_checked g1 (w : wid) id ik :
+  find (fun x => String.eqb (l_ik x) ik && negb (l_pend x)) (g_logs g1) = None ->
+  lev g1 (ev (upd_w (set_logs g1 (map (l_publish id ik) (g_logs g1))) w (fun s => wset_pc s PCommit)) w LLog SDone).
+Proof.
+  intros Hf. unfold lev; simpl. split; [|reflexivity]. apply (le_pub _ _ _ _ _ _ id ik).
+  - intros x. apply l_publish_props.
+  - intros x. apply l_publish_keys.
+  - apply find_none_lkeys; auto.
+Qed.
+Lemma lev_log_insert_empty g1 (w : wid) id :
+  lev g1 (ev (upd_w (set_logs g1 (map (l_publish id "") (g_logs g1))) w (fun s => wset_pc s PCommit)) w LLog SDone).
+Proof.
+  unfold lev; simpl. split; [|reflexivity]. apply le_map. intros x. destruct (l_publish_props id "" x) as [A B].
+  repeat split; auto. apply l_publish_keys_empty.
+Qed.
+
+Lemma lev_do_log g w s : lev g (do_log g w s).
+Proof.
+  unfold do_log. destruct (g_hash g && negb (owner_is (g_adv g) w)) eqn:Hguard; [apply lev_same; reflexivity|].
+  destruct (my_pending_log g w) as [r0|] eqn:Hp.
+  - destruct (String.eqb (l_ik r0) "") eqn:Er.
+    + apply String.eqb_eq in Er. rewrite Er. apply lev_log_insert_empty.
+    + destruct (find _ (g_logs g)) as [t|] eqn:Hf.
+      * destruct (l_own t); [apply lev_blocked|]. unfold ev, fail_abort. pose proof (lev_abort g w) as H. unfold lev in *; simpl in *; exact H.
+      * apply lev_log_insert_checked; auto.
   - set (row := {| l_id := g_nlog g; l_ik := o_ik (w_op s); l_inh := o_inh (w_op s); l_own := Some w;
                    l_tx := match w_txid s with Some i => i | None => 0 end; l_pend := true |}).
-    assert (Hd : evo l_id (g_logs g) (g_nlog g) (g_logs g ++ [row]) (g_nlog g + 1)) by (apply evo_app; reflexivity).
-    brk; unfold levo; simpl;
-      try (eapply evo_trans; [exact Hd|]; apply evo_map; apply l_publish_id);
-      try (eapply evo_trans; [exact Hd|]; apply evo_filter).
-    all: try (eapply evo_trans; [exact Hd|];
-              match goal with |- evo _ _ _ (g_logs (blocked ?g1 ?w ?h ?l)) _ => exact (levo_blocked g1 w h l) end).
+    set (g1 := upd_w (set_nlog (set_logs g (g_logs g ++ [row])) (g_nlog g + 1)) w (fun s0 => wset_logid s0 (Some (g_nlog g)))).
+    assert (Hd : lev g g1).
+    { unfold lev, g1; simpl. split; [|reflexivity]. apply (le_draw _ _ _ _ _ w); try reflexivity.
+      intros Hh. rewrite Hh in Hguard. simpl in Hguard. apply negb_false_iff in Hguard. apply owner_is_true; auto. }
+    eapply lev_trans; [exact Hd|]. simpl.
+    destruct (String.eqb (o_ik (w_op s)) "") eqn:Er.
+    + apply String.eqb_eq in Er. rewrite Er. apply (lev_log_insert_empty g1).
+    + match goal with |- context [find ?p ?l] => destruct (find p l) as [t|] eqn:Hf end.
+      * destruct (l_own t); [apply (lev_blocked g1)|]. unfold ev, fail_abort. pose proof (lev_abort g1 w) as H. unfold lev in *; simpl in *; exact H.
+      * apply (lev_log_insert_checked g1); auto.
 Qed.
 
-Lemma step_tevo g w : tevo g (step g w).
+Lemma step_lev g w : lev g (step g w).
 Proof.
-  unfold step. destruct (get_w g w) as [s|]; [|apply same_tevo; split; reflexivity].
+  unfold step. destruct (get_w g w) as [s|]; [|apply lev_same; reflexivity].
   destruct (w_pc s).
-  - unfold do_ik. brk; apply same_tevo; split; reflexivity.
-  - unfold do_rev. brk; try (apply tevo_blocked); try (apply same_tevo; split; reflexivity).
-    unfold tevo; simpl. apply evo_map. intros x. destruct (_ && _); reflexivity.
-  - apply do_bal_tevo.
-  - apply vol_loop_tevo.
-  - apply do_tx_tevo.
-  - unfold do_adv. brk; try (apply tevo_blocked); apply same_tevo; split; reflexivity.
-  - unfold do_log. destruct (g_hash g && negb (owner_is (g_adv g) w)); [apply same_tevo; split; reflexivity|].
-    destruct (w_logid s); brk; unfold tevo; simpl; try apply evo_refl;
-      try (eapply evo_trans; [apply evo_filter|apply evo_map; apply t_release_id]);
-      try (match goal with |- evo _ _ _ (g_txs (blocked ?g1 ?w ?h ?l)) _ => exact (tevo_blocked g1 w h l) end).
-  - unfold do_commit, tevo; simpl. apply evo_map. apply t_commit_id.
-  - unfold do_rollback. brk; unfold tevo; simpl; eapply evo_trans; try apply evo_filter; apply evo_map; apply t_release_id.
-  - unfold do_fetch. brk; apply same_tevo; split; reflexivity.
-  - apply same_tevo; split; reflexivity.
+  - unfold do_ik. brk; apply lev_same; reflexivity.
+  - unfold do_rev. brk; try (apply lev_blocked); apply lev_same; reflexivity.
+  - apply lev_do_bal.
+  - apply lev_vol_loop.
+  - apply lev_do_tx.
+  - unfold do_adv. destruct (g_adv g) as [h|] eqn:Ha.
+    + destruct (Nat.eqb h w); [apply lev_same; reflexivity|apply lev_blocked].
+    + unfold lev; simpl. rewrite Ha. split; [apply le_acquire|reflexivity].
+  - apply lev_do_log.
+  - unfold do_commit, lev; simpl. split; [apply le_commit|reflexivity].
+  - unfold do_rollback. pose proof (lev_abort g w) as H. brk; unfold lev in *; simpl in *; exact H.
+  - unfold do_fetch. brk; apply lev_same; reflexivity.
+  - apply lev_same; reflexivity.
 Qed.
 
-Lemma step_levo g w : levo g (step g w).
-Proof.
-  unfold step. destruct (get_w g w) as [s|]; [|apply same_levo; split; reflexivity].
-  destruct (w_pc s).
-  - unfold do_ik. brk; apply same_levo; split; reflexivity.
-  - unfold do_rev. brk; try (apply levo_blocked); apply same_levo; split; reflexivity.
-  - apply do_bal_levo.
-  - apply vol_loop_levo.
-  - unfold do_tx. destruct (w_txid s); brk; unfold levo; simpl; try apply evo_refl; try apply evo_filter;
-      try (match goal with |- evo _ _ _ (g_logs (blocked ?g1 ?w ?h ?l)) _ => exact (levo_blocked g1 w h l) end).
-  - unfold do_adv. brk; try (apply levo_blocked); apply same_levo; split; reflexivity.
-  - apply do_log_levo.
-  - unfold do_commit, levo; simpl. apply evo_map. apply l_commit_id.
-  - unfold do_rollback. brk; unfold levo; simpl; apply evo_filter.
-  - unfold do_fetch. brk; apply same_levo; split; reflexivity.
-  - apply same_levo; split; reflexivity.
-Qed.
-
-Definition ids_inv (g : gst) : Prop := ids_ok t_id (g_txs g) (g_ntx g) /\ ids_ok l_id (g_logs g) (g_nlog g).
-
-Lemma step_ids_inv g w : ids_inv g -> ids_inv (step g w).
-Proof. intros [Ht Hl]. split; [eapply evo_ids_ok; [apply step_tevo|exact Ht] | eapply evo_ids_ok; [apply step_levo|exact Hl]]. Qed.
-
-Theorem ids_unique_all_schedules g sched : ids_inv g -> ids_inv (run g sched).
-Proof. apply run_inv. apply step_ids_inv. Qed.
-
-Lemma ids_inv_init hash ops : ids_inv (init hash ops).
-Proof. split; split; simpl; constructor. Qed.
-Lemma ids_inv_reseat g ops : ids_inv g -> ids_inv (reseat g ops).
-Proof. intros H; exact H. Qed.
+Definition log_inv (g : gst) : Prop := log_ok (g_hash g) (g_logs g) (g_nlog g) (g_adv g) (g_clogs g).
+Lemma step_log_inv g w : log_inv g -> log_inv (step g w).
+Proof. intros H. destruct (step_lev g w) as [H1 H2]. unfold log_inv. rewrite H2. eapply levo_ok; [exact H1|exact H]. Qed.
+Theorem log_inv_all_schedules g sched : log_inv g -> log_inv (run g sched).
+Proof. apply run_inv. apply step_log_inv. Qed.
